@@ -3,6 +3,7 @@ package corecheck
 import (
 	"context"
 	"fmt"
+	"sort"
 	"strings"
 	"testing"
 	"time"
@@ -26,6 +27,20 @@ type EmitCase struct {
 	Messages []interface{}          `json:"messages"`
 	Limit    int                    `json:"limit"`
 	Crew     bool                   `json:"crew,omitempty"`
+	// Two: the crew holds a second machine that answers every message it
+	// sees with a message of its own (addressed to nobody), so that one
+	// round has the batches of two walks, with different contents
+	Two bool `json:"two,omitempty"`
+}
+
+const echoSrc = `var n = (typeof _.bindings.n === 'number' ? _.bindings.n : 0) + 1; _.out({to: "nobody", q: n}); _.out({to: "nobody", q: n, second: true}); return {n: n};`
+
+func echoSpec() *core.Spec {
+	return &core.Spec{Name: "echo", Nodes: map[string]*core.Node{
+		"start": {Branches: &core.Branches{Type: "message", Branches: []*core.Branch{{Pattern: "?m", Target: "echo"}}}},
+		"echo": {ActionSource: &core.ActionSource{Interpreter: "ecmascript", Source: echoSrc},
+			Branches: &core.Branches{Type: "bindings", Branches: []*core.Branch{{Target: "start"}}}},
+	}}
 }
 
 func genEmit(t *rapid.T) EmitCase {
@@ -78,6 +93,7 @@ func genEmit(t *rapid.T) EmitCase {
 	}
 	c.Limit = rapid.SampledFrom([]int{5, 20, 100}).Draw(t, "limit")
 	c.Crew = rapid.IntRange(0, 3).Draw(t, "crew") == 0
+	c.Two = c.Crew && rapid.Bool().Draw(t, "two")
 	return c
 }
 
@@ -215,6 +231,7 @@ func checkEmit(c EmitCase) (v ev.Verdict) {
 	budget := 150
 	strides := 1500
 	terminated := true
+	echoed := 0
 	var expected [][][]string
 	for _, m := range c.Messages {
 		var batches [][]string
@@ -227,6 +244,15 @@ func checkEmit(c EmitCase) (v ev.Verdict) {
 			}
 			msg := queue[0]
 			queue = queue[1:]
+			if c.Two && msg != nil {
+				// the second machine sees what the first one sees (a
+				// null message is no message), and answers with two
+				// messages nobody receives
+				echoed++
+				batches = append(batches, []string{
+					jsongen.Canon(map[string]interface{}{"to": "nobody", "q": float64(echoed)}),
+					jsongen.Canon(map[string]interface{}{"to": "nobody", "q": float64(echoed), "second": true})})
+			}
 			ww, err := compiled2.Walk(context.Background(), s.state, []interface{}{msg}, &core.Control{Limit: c.Limit}, nil)
 			if err != nil {
 				terminated = false
@@ -276,6 +302,18 @@ func checkEmit(c EmitCase) (v ev.Verdict) {
 		v.Failf("SetMachine: %v", err)
 		return
 	}
+	if c.Two {
+		src2, err := crewh.InlineSource(echoSpec())
+		if err != nil {
+			v.Failf("inline source: %v", err)
+			return
+		}
+		if err := cr.SetMachine(cctx, "m2", src2, nil); err != nil {
+			v.Failf("SetMachine: %v", err)
+			return
+		}
+		v.Class("crew-of-two")
+	}
 	// SetMachine with a state for a new machine creates it with that state
 	for i, m := range c.Messages {
 		var r *sio.Result
@@ -300,12 +338,21 @@ func checkEmit(c EmitCase) (v ev.Verdict) {
 			}
 			got = append(got, bb)
 		}
+		if c.Two {
+			// the order in which the two machines are visited is not fixed
+			sortBatches(got)
+			sortBatches(expected[i])
+		}
 		if fmt.Sprint(got) != fmt.Sprint(expected[i]) {
 			v.Failf("crew reported emissions %v for message %d; the machine's walks emitted %v", got, i, expected[i])
 			return
 		}
 	}
 	return
+}
+
+func sortBatches(bs [][]string) {
+	sort.Slice(bs, func(i, j int) bool { return fmt.Sprint(bs[i]) < fmt.Sprint(bs[j]) })
 }
 
 func TestC08Emit(t *testing.T) {
